@@ -82,10 +82,10 @@ BaseBad(o) ==
   LET g == CaseG IN
   IF ~SafeCase(g) THEN {"case-too-close-to-the-floor"}
   ELSE IF o.size # g.n \/ Len(o.ut) # (g.n * (g.n - 1)) \div 2 THEN {"size"}
+  ELSE IF o.bad # 0 THEN {"non-finite-or-huge-value"}
   ELSE LET ix == UTIdx(g.n) IN
        IF \A p \in 1..Len(o.ut) :
              LET v == g.num[ix[p][1]][ix[p][2]] IN
-             /\ o.ut[p] \in Int
              /\ IF g.kind = "lin"
                   THEN /\ CloseI(o.ut[p], ExpNeg(RoundDiv(v * ES, g.den)), ElemErr + 2)
                        /\ (v = 0) => o.ut[p] = 10000
